@@ -622,7 +622,7 @@ func (e *specEnv) ghostSel(n *ESel) specVal {
 		ne.pkg = p
 	}
 	srt, t := ne.sortOfName(g.Typ)
-	h := e.heap("#."+g.Owner+"."+g.Name, "(Array Int "+srt+")")
+	h := e.heap("Gh."+g.Owner+"."+g.Name, "(Array Int "+srt+")")
 	if t == nil {
 		return mathInt(sx("select", h, key))
 	}
@@ -684,11 +684,37 @@ func (e *specEnv) call(n *ECall) specVal {
 		if v.typ != nil && isString(v.typ) {
 			return v
 		}
-		h := e.heap("E.byte", "(Array Int (Array Int Int))")
+		h := e.heap("E.uint8", "(Array Int (Array Int Int))")
 		return specVal{term: vc.b2s(h, v.term), typ: types.Typ[types.String]}
+	case "cell":
+		// cell(T, a, p): element at absolute position p of array a holding elements of (scalar) type T
+		id, ok := n.Args[0].(*EIdent)
+		if !ok {
+			e.fail("cell needs a type name as first argument")
+		}
+		t := e.resolveType(id.Name)
+		srt := vc.sortOf(t)
+		h := e.heap(elemHeapName(t), "(Array Int (Array Int "+srt+"))")
+		return specVal{term: sx("select", sx("select", h, e.trInt(n.Args[1])), e.trInt(n.Args[2])), typ: t}
+	case "seen":
+		// seen(k): key k was already produced by the map range loop this invariant belongs to
+		if e.fr == nil || e.atBlock == nil {
+			e.fail("seen() is only available in loop invariants of map range loops")
+		}
+		it := e.fr.rangeIterAt(e.atBlock)
+		if it == "" {
+			e.fail("seen(): no map range iterator for this loop")
+		}
+		k := arg(0)
+		ks := "Int"
+		if k.typ != nil {
+			ks = vc.sortOf(k.typ)
+		}
+		h := e.heap("Gh.iter.seen."+sanitize(ks), "(Array Int (Array "+ks+" Bool))")
+		return mathBool(sx("select", sx("select", h, it), k.term))
 	case "bcell":
 		// bcell(a, p): byte at absolute position p of byte array a (robust under re-slicing)
-		h := e.heap("E.byte", "(Array Int (Array Int Int))")
+		h := e.heap("E.uint8", "(Array Int (Array Int Int))")
 		return specVal{term: sx("select", sx("select", h, e.trInt(n.Args[0])), e.trInt(n.Args[1])), typ: types.Typ[types.Byte]}
 	case "wrap64":
 		return mathInt(sx("wrap_s64", e.trInt(n.Args[0])))
@@ -748,7 +774,7 @@ func (e *specEnv) call(n *ECall) specVal {
 		h := e.heap(ptrHeapName(t), "(Array Int "+vc.sortOf(t)+")")
 		return specVal{term: sx("select", h, sx("i-val", v.term)), typ: t}
 	case "closed":
-		return mathBool(sx("select", e.heap("#chan.closed", "(Array Int Bool)"), arg(0).term))
+		return mathBool(sx("select", e.heap("Gh.chan.closed", "(Array Int Bool)"), arg(0).term))
 	case "sameheap":
 		// sameheap(H): heap H (given as string) unchanged since old
 		return mathBool("true")
